@@ -175,6 +175,13 @@ def float_cases(rng, n):
         sec = rng.choice([0.0, 0.5, 1.5, 2.5, 0.001, 1e-9, 12345.678, rng.random() * 1000])
         s, m, e = fbits(sec)
         cases.append([1, s, m, e, tpb, tempo]); impl.append([0, mido.second2tick(sec, tpb, tempo)])
+        # bpm2tempo / tempo2bpm (units.py), with and without a time signature
+        den = rng.choice([4, 4, 2, 8, 16, 1])
+        bpm = rng.choice([120, 60, 90.5, 33.333, 1, 240, 119.99, rng.randrange(1, 1000), rng.random() * 400 + 0.5])
+        s, m, e = fbits(float(bpm))
+        cases.append([4, s, m, e, den]); impl.append([0, mido.bpm2tempo(bpm, (3, den))])
+        tempo_ = rng.choice([500000, 250000, 1, 16777215, rng.randrange(1, 16777216)])
+        cases.append([5, tempo_, den]); impl.append(fbits(mido.tempo2bpm(tempo_, (3, den))))
     for _ in range(n // 4):
         tpb = rng.choice([96, 480, 960, rng.randrange(1, 32768)])
         evs = random_events(rng, rng.randrange(1, 12))
